@@ -66,6 +66,7 @@ type inliner struct {
 	serial int
 	Log    []string
 	seen   map[ast.Stmt]bool
+	pure   map[*types.Func]bool
 }
 
 func (in *inliner) content(file string) []byte {
@@ -194,6 +195,29 @@ func (in *inliner) stmts(pkg *packages.Package, file *ast.File, host *ast.FuncDe
 		done := false
 		if call != nil {
 			done = in.tryInline(pkg, file, host, s, call, decls, fileOf, edits, imports)
+		}
+		if !done {
+			// a call of a *pure* helper nested inside the statement's expressions and
+			// evaluated unconditionally can be hoisted in front of the statement
+			// (evaluation order is irrelevant for a function without side effects)
+			for _, e := range stmtExprs(s) {
+				if done {
+					break
+				}
+				for _, c := range unconditionalCalls(e) {
+					if c == call {
+						continue
+					}
+					obj, ok := typeutil.Callee(pkg.TypesInfo, c).(*types.Func)
+					if !ok || obj.Pkg() != pkg.Types || decls[obj] == nil || !in.pureHelper(pkg, decls, obj, 0) {
+						continue
+					}
+					if in.tryInline(pkg, file, host, s, c, decls, fileOf, edits, imports) {
+						done = true
+						break
+					}
+				}
+			}
 		}
 		// descend into nested statement lists (a statement whose call was inlined is only
 		// edited at its call expression, so its nested blocks can still be processed)
@@ -713,7 +737,7 @@ func (P *Program) PruneUncalled(cand func(key string) bool) int {
 			top = top.Parent()
 		}
 		k := P.Key(top)
-		if cand(k) && len(g.In[top]) == 0 {
+		if cand(k) && len(g.In[top]) == 0 && !IsGeneratedOrAux(P.File(top.Pos())) {
 			dead[fn] = true
 			continue
 		}
@@ -741,4 +765,178 @@ func (P *Program) PruneUncalled(cand func(key string) bool) int {
 		}
 	}
 	return len(dead)
+}
+
+// stmtExprs lists the expressions a statement evaluates exactly once before any of its
+// nested blocks run.
+func stmtExprs(s ast.Stmt) []ast.Expr {
+	switch x := s.(type) {
+	case *ast.ExprStmt:
+		return []ast.Expr{x.X}
+	case *ast.AssignStmt:
+		return x.Rhs
+	case *ast.ReturnStmt:
+		return x.Results
+	case *ast.IfStmt:
+		var out []ast.Expr
+		if as, ok := x.Init.(*ast.AssignStmt); ok {
+			out = append(out, as.Rhs...)
+		} else if x.Init != nil {
+			return nil
+		}
+		return append(out, x.Cond)
+	case *ast.RangeStmt:
+		return []ast.Expr{x.X}
+	case *ast.SwitchStmt:
+		if x.Init == nil && x.Tag != nil {
+			return []ast.Expr{x.Tag}
+		}
+	case *ast.DeclStmt:
+		if gd, ok := x.Decl.(*ast.GenDecl); ok && gd.Tok == token.VAR && len(gd.Specs) == 1 {
+			if vs, ok := gd.Specs[0].(*ast.ValueSpec); ok {
+				return vs.Values
+			}
+		}
+	}
+	return nil
+}
+
+// unconditionalCalls returns the call expressions inside e that are evaluated whenever e
+// is (not under the right operand of && / ||, not inside a function literal), innermost
+// arguments first.
+func unconditionalCalls(e ast.Expr) []*ast.CallExpr {
+	var out []*ast.CallExpr
+	var walk func(n ast.Node)
+	walk = func(n ast.Node) {
+		switch x := n.(type) {
+		case nil:
+			return
+		case *ast.FuncLit:
+			return
+		case *ast.BinaryExpr:
+			walk(x.X)
+			if x.Op != token.LAND && x.Op != token.LOR {
+				walk(x.Y)
+			}
+			return
+		case *ast.CallExpr:
+			walk(x.Fun)
+			for _, a := range x.Args {
+				walk(a)
+			}
+			out = append(out, x)
+			return
+		}
+		ast.Inspect(n, func(c ast.Node) bool {
+			if c == n || c == nil {
+				return true
+			}
+			walk(c)
+			return false
+		})
+	}
+	walk(e)
+	return out
+}
+
+// pureHelper: the function only computes — it assigns only its own locals, and calls only
+// value-semantics arithmetic (cosmossdk.io/math, sdk coin types), builtins without effects,
+// conversions and other pure helpers of the package.
+func (in *inliner) pureHelper(pkg *packages.Package, decls map[*types.Func]*ast.FuncDecl, obj *types.Func, depth int) bool {
+	if in.pure == nil {
+		in.pure = map[*types.Func]bool{}
+	}
+	if v, ok := in.pure[obj]; ok {
+		return v
+	}
+	in.pure[obj] = false // recursion guard
+	fd := decls[obj]
+	if fd == nil || fd.Body == nil || depth > 2 {
+		return false
+	}
+	info := pkg.TypesInfo
+	local := func(o types.Object) bool { return o != nil && o.Pos() >= fd.Pos() && o.Pos() < fd.End() }
+	ok := true
+	lhsOK := func(e ast.Expr) bool {
+		id, isID := ast.Unparen(e).(*ast.Ident)
+		if !isID {
+			return false
+		}
+		if id.Name == "_" {
+			return true
+		}
+		o := info.Defs[id]
+		if o == nil {
+			o = info.Uses[id]
+		}
+		v, isVar := o.(*types.Var)
+		if !isVar || !local(o) {
+			return false
+		}
+		// assigning a pointer / slice / map parameter's target would be an effect; assigning
+		// the local variable itself is not
+		_ = v
+		return true
+	}
+	ast.Inspect(fd.Body, func(n ast.Node) bool {
+		if !ok {
+			return false
+		}
+		switch x := n.(type) {
+		case *ast.AssignStmt:
+			for _, l := range x.Lhs {
+				if !lhsOK(l) {
+					ok = false
+				}
+			}
+		case *ast.IncDecStmt:
+			if !lhsOK(x.X) {
+				ok = false
+			}
+		case *ast.SendStmt, *ast.GoStmt, *ast.DeferStmt:
+			ok = false
+		case *ast.UnaryExpr:
+			if x.Op == token.ARROW {
+				ok = false
+			}
+		case *ast.CallExpr:
+			if tv, isConv := info.Types[x.Fun]; isConv && tv.IsType() {
+				return true
+			}
+			switch c := typeutil.Callee(info, x).(type) {
+			case *types.Builtin:
+				switch c.Name() {
+				case "len", "cap", "min", "max", "make", "new", "append":
+				default:
+					ok = false
+				}
+			case *types.Func:
+				p := c.Pkg()
+				switch {
+				case p == nil:
+					ok = false
+				case p.Path() == "cosmossdk.io/math":
+				case strings.HasSuffix(p.Path(), "cosmos-sdk/types"):
+					sig := c.Type().(*types.Signature)
+					if sig.Recv() != nil && !IsMathType(sig.Recv().Type()) {
+						ok = false
+					}
+					if sig.Recv() == nil && !strings.HasPrefix(c.Name(), "New") {
+						ok = false
+					}
+				case p == pkg.Types && decls[c] != nil:
+					if !in.pureHelper(pkg, decls, c, depth+1) {
+						ok = false
+					}
+				default:
+					ok = false
+				}
+			default:
+				ok = false // dynamic call
+			}
+		}
+		return ok
+	})
+	in.pure[obj] = ok
+	return ok
 }
